@@ -78,10 +78,11 @@ Fixpoint In_set (p : point) (S : sv) : bool :=
   end.
 
 (* ------------------------------------------------------------------ well-formed sets of the fragment *)
+(* numbers of the fragment: integers, rationals in lowest terms with denominator > 1, +-oo *)
 Definition num_ok (a : number) : bool :=
   match a with
   | NInt _ => true
-  | NRat _ _ => true
+  | NRat n d => (Z.gcd n (Zpos d) =? 1) && (1 <? Zpos d)
   | NInf d => (d =? 1) || (d =? -1)
   | _ => false
   end.
@@ -102,7 +103,7 @@ Fixpoint wf_set (S : sv) : bool :=
   match S with
   | SInterval s e _ _ => num_ok s && num_ok e && x_lt s e
   | SFinite l => forallb num_ok l
-  | SUnion l => forallb wf_set l
+  | SUnion l => match l with [] => false | _ => forallb wf_set l end      (* a Union has members *)
   | SInter l => forallb wf_set l
   | SCompl u c => wf_set u && wf_set c
   | _ => true
